@@ -83,11 +83,11 @@ func ruleC09(r *Report) {
 	}
 	br.Check(sortedFns(p, onlyRespond), "C09.bounds", boundsOpts{OnlySchemaDerived: true})
 
-	checkPrecond(r, a, sc, sortedFns(p, sc.Consume), "C09.precond")
-	checkPanics(r, a, sc, sortedFns(p, sc.Consume), "C09.panics")
-	checkInflate(r, a, sc, "C09.inflate")
-	checkIRE(r, a, sc, "C09.ire")
-	checkErrDrop(r, a, sc, sortedFns(p, sc.Consume), "C09.errdrop")
+	safely(r, func() { checkPrecond(r, a, sc, sortedFns(p, sc.Consume), "C09.precond") })
+	safely(r, func() { checkPanics(r, a, sc, sortedFns(p, sc.Consume), "C09.panics") })
+	safely(r, func() { checkInflate(r, a, sc, "C09.inflate") })
+	safely(r, func() { checkIRE(r, a, sc, "C09.ire") })
+	safely(r, func() { checkErrDrop(r, a, sc, sortedFns(p, sc.Consume), "C09.errdrop") })
 }
 
 func ruleC11(r *Report) {
@@ -112,11 +112,11 @@ func ruleC11(r *Report) {
 	nr.Check(fns, "", "C11.nilsrc")
 	br := &BoundsRules{R: r, A: a, S: sc}
 	br.Check(fns, "C11.bounds", boundsOpts{})
-	checkPrecond(r, a, sc, fns, "C11.precond")
-	checkCertMatch(r, a, sc, "C11.certmatch")
-	checkGCMAuth(r, a, sc, "C11.gcm-auth")
-	checkPadding(r, a, sc, "C11.padding", false)
-	checkErrDrop(r, a, sc, fns, "C11.errdrop")
+	safely(r, func() { checkPrecond(r, a, sc, fns, "C11.precond") })
+	safely(r, func() { checkCertMatch(r, sc, "C11.certmatch") })
+	safely(r, func() { checkGCMAuth(r, a, sc, "C11.gcm-auth") })
+	safely(r, func() { checkPadding(r, a, sc, "C11.padding", false) })
+	safely(r, func() { checkErrDrop(r, a, sc, fns, "C11.errdrop") })
 }
 
 // ---------------------------------------------------------------------------------------------
@@ -463,12 +463,15 @@ func valueIsEnvironmental(v ssa.Value, depth int) bool {
 // ---------------------------------------------------------------------------------------------
 // bounded inflate
 
+var decompressors = []string{"compress/flate.NewReader", "compress/flate.NewReaderDict", "compress/zlib.NewReader", "compress/zlib.NewReaderDict", "compress/gzip.NewReader"}
+
 func checkInflate(r *Report, a *Analysis, sc *Scope, rule string) {
 	p := a.P
 	B := a.B
-	// role: bounded inflater constructor = library function that calls flate.NewReader and wraps the result
+	// role: bounded inflater constructor = library function on the consuming paths that creates a
+	// decompressing reader (flate/zlib/gzip) and wraps the result
 	ctors := map[*ssa.Function]bool{}
-	for _, fn := range p.FuncsCalling("compress/flate.NewReader") {
+	for _, fn := range p.FuncsCalling(decompressors...) {
 		if !p.InLibrary(fn) {
 			continue
 		}
@@ -480,18 +483,48 @@ func checkInflate(r *Report, a *Analysis, sc *Scope, rule string) {
 		panic(unresolved{"role bounded-inflater (library function on the consuming paths calling flate.NewReader)"})
 	}
 	for _, fn := range sortedFns(p, ctors) {
-		// the flate reader must be stored into a wrapper struct whose Read method is bounded, and returned
-		cons := fmt.Sprintf("%s: flate.NewReader wrapped by a bounded reader", p.FnName(fn))
+		// every decompressing reader must be stored into a wrapper struct whose Read method is bounded; it
+		// must have no other use (returned raw, passed on, read directly)
+		cons := fmt.Sprintf("%s: decompressing readers wrapped by a bounded reader", p.FnName(fn))
 		var wrapper *types.Named
-		for _, ci := range callsTo(fn, "compress/flate.NewReader") {
+		raw := ""
+		for _, ci := range callsTo(fn, decompressors...) {
 			v := ci.(ssa.Value)
-			for _, rf := range *v.Referrers() {
-				if st, ok := rf.(*ssa.Store); ok {
-					if fa, ok := st.Addr.(*ssa.FieldAddr); ok {
-						wrapper = namedOf(fa.X.Type())
+			vals := []ssa.Value{v}
+			// (reader, error) constructors: follow the reader component
+			if tup, ok := v.Type().(*types.Tuple); ok && tup.Len() == 2 {
+				vals = nil
+				for _, rf := range *v.Referrers() {
+					if ex, ok := rf.(*ssa.Extract); ok && ex.Index == 0 {
+						vals = append(vals, ex)
 					}
 				}
 			}
+			for len(vals) > 0 {
+				cur := vals[0]
+				vals = vals[1:]
+				for _, rf := range *cur.Referrers() {
+					switch y := rf.(type) {
+					case *ssa.Store:
+						if fa, ok := y.Addr.(*ssa.FieldAddr); ok && y.Val == cur {
+							wrapper = namedOf(fa.X.Type())
+							continue
+						}
+						raw = "stored to " + y.Addr.String()
+					case *ssa.MakeInterface, *ssa.ChangeInterface, *ssa.Phi:
+						vals = append(vals, y.(ssa.Value))
+					case *ssa.DebugRef, *ssa.Extract:
+					case *ssa.Return:
+						raw = "returned without the bounding wrapper"
+					default:
+						raw = "used by " + rf.String()
+					}
+				}
+			}
+		}
+		if raw != "" {
+			r.Bad(rule, cons, p.Pos(fn.Pos()), "a raw decompressing reader escapes the bounded wrapper: "+raw+" (unbounded inflate)")
+			continue
 		}
 		if wrapper == nil {
 			r.Bad(rule, cons, p.Pos(fn.Pos()), "the raw flate reader is used directly on a consuming path (unbounded inflate)")
@@ -568,13 +601,16 @@ func checkInflate(r *Report, a *Analysis, sc *Scope, rule string) {
 			if mi, ok := arg.(*ssa.MakeInterface); ok {
 				arg = mi.X
 			}
+			if ci2, ok := arg.(*ssa.ChangeInterface); ok {
+				arg = ci2.X
+			}
 			if c, ok := arg.(*ssa.Call); ok {
 				if scf := c.Call.StaticCallee(); scf != nil {
 					fcx := a.Ctx(fn)
 					cons := fmt.Sprintf("%s: io.ReadAll(%s)", p.FnName(fn), shortFn(scf))
 					if ctors[scf] {
 						r.OK(rule, cons, p.InstrPos(ci.(ssa.Instruction)), "reads through the bounded inflater")
-					} else if scf.String() == "compress/flate.NewReader" {
+					} else if strings.HasPrefix(scf.String(), "compress/") {
 						r.Bad(rule, cons, p.InstrPos(ci.(ssa.Instruction)), "reads an unbounded flate stream")
 					}
 					_ = fcx
@@ -880,32 +916,35 @@ func shortName(s string) string {
 // ---------------------------------------------------------------------------------------------
 // C11 specific rules
 
-func checkCertMatch(r *Report, a *Analysis, sc *Scope, rule string) {
-	p := a.P
-	B := a.B
-	// role: RSA key validator = function in xmlenc that calls (*big.Int).Cmp and x509.ParseCertificate
+func checkCertMatch(r *Report, sc *Scope, rule string) {
+	p := sc.P
+	// role: RSA key validator = xmlenc function under Decrypt that compares moduli ((*big.Int).Cmp); helper
+	// functions it calls are analysed as part of it (inlining bound 3), so splitting it up stays silent
 	var cands []*ssa.Function
 	for _, fn := range p.FuncsCalling("(*math/big.Int).Cmp") {
-		if fn.Pkg != nil && fn.Pkg.Pkg.Path() == modPath+"/xmlenc" && len(callsTo(fn, "crypto/x509.ParseCertificate")) > 0 {
+		if fn.Pkg != nil && fn.Pkg.Pkg.Path() == modPath+"/xmlenc" && sc.Decrypt[fn] {
 			cands = append(cands, fn)
 		}
 	}
 	if len(cands) == 0 {
-		panic(unresolved{"role RSA key validator (xmlenc function calling big.Int.Cmp and x509.ParseCertificate)"})
+		panic(unresolved{"role RSA key validator (xmlenc function under Decrypt calling big.Int.Cmp)"})
 	}
 	for _, fn := range cands {
+		a := NewAnalysis(p)
+		a.Inline = func(f *ssa.Function) bool {
+			return f.Pkg != nil && f.Pkg.Pkg.Path() == modPath+"/xmlenc" && f != fn
+		}
+		B := a.B
 		fc := a.Ctx(fn)
 		fc.ensureConds()
 		r.Fn(p.FnName(fn))
 		rej := fc.RejectFormula()
-		// locate the atoms
+		// locate the atoms (in the function or its inlined helpers)
 		var certPresent, pemNil, parseErr, notRSA, cmpNe, eNe string
-		for name, ai := range a.Atoms {
-			if ai.Fn != fn {
-				continue
-			}
+		for _, name := range sortedKeys(a.Atoms) {
+			ai := a.Atoms[name]
 			switch {
-			case ai.Kind == "isnil" && strings.Contains(name, "FindElement") && strings.Contains(name, "X509Certificate"):
+			case ai.Kind == "isnil" && strings.Contains(name, "FindElement") && certPresent == "" && atomLookupsCertificate(ai):
 				certPresent = name
 			case ai.Kind == "isnil" && strings.Contains(name, "pem.Decode"):
 				pemNil = name
@@ -915,20 +954,14 @@ func checkCertMatch(r *Report, a *Analysis, sc *Scope, rule string) {
 				notRSA = name
 			case ai.Kind == "eq" && strings.Contains(name, ".Cmp("):
 				cmpNe = name
-			case ai.Kind == "eq" && strings.Contains(name, ".E"):
+			case ai.Kind == "eq" && (strings.HasSuffix(ai.Args[0], ".E") || strings.HasSuffix(ai.Args[1], ".E")):
 				eNe = name
 			}
 		}
-		if certPresent == "" {
-			// the lookup may be named differently: take the isnil atom over a FindElement result used first
-			for name, ai := range a.Atoms {
-				if ai.Fn == fn && ai.Kind == "isnil" && strings.Contains(name, "FindElement") {
-					certPresent = name
-					break
-				}
-			}
+		type row struct {
+			what, atom string
+			neg        bool
 		}
-		type row struct{ what, atom string; neg bool }
 		rows := []row{
 			{"invalid PEM (pem.Decode returned nil)", pemNil, false},
 			{"certificate does not parse", parseErr, true},
@@ -936,8 +969,12 @@ func checkCertMatch(r *Report, a *Analysis, sc *Scope, rule string) {
 			{"modulus differs", cmpNe, true},
 			{"exponent differs", eNe, true},
 		}
+		if certPresent == "" {
+			r.Bad(rule, p.FnName(fn)+": embedded certificate lookup", p.Pos(fn.Pos()), "no lookup of KeyInfo/X509Data/X509Certificate found")
+			continue
+		}
 		for _, rw := range rows {
-			cons := fmt.Sprintf("%s: reject when %s", p.FnName(fn), rw.what)
+			cons := fmt.Sprintf("%s: reject when an X509Certificate is embedded and %s", p.FnName(fn), rw.what)
 			if rw.atom == "" {
 				r.Bad(rule, cons, p.Pos(fn.Pos()), "the comparison is missing from the validator")
 				continue
@@ -946,24 +983,29 @@ func checkCertMatch(r *Report, a *Analysis, sc *Scope, rule string) {
 			if rw.neg {
 				lit = B.Not(lit)
 			}
-			// under "certificate present" and all earlier checks passed, the bad literal must imply reject:
-			// equivalently no success path exists on which the bad literal holds while the cert is present.
-			succ := B.And(B.Not(rej), lit)
-			if certPresent != "" {
-				succ = B.And(succ, B.Not(B.Var(certPresent)))
+			// no success path may be compatible with "certificate present and this check fails"
+			succ := B.And(B.And(B.Not(rej), lit), B.Not(B.Var(certPresent)))
+			if succ == B.False {
+				r.OK(rule, cons, p.Pos(fn.Pos()), "no success path is compatible with this condition")
+			} else {
+				r.Bad(rule, cons, p.Pos(fn.Pos()), "a success return is reachable although a certificate is embedded and "+rw.what+": e.g. under "+firstCube(B, succ))
 			}
-			// success exits
-			okAll := true
-			for _, ret := range fc.Returns() {
-				if isNilConst(ret.Results[len(ret.Results)-1]) {
-					if B.And(fc.Cond(ret.Block()), succ) != B.False {
-						okAll = false
-					}
-				}
-			}
-			r.Check(okAll, rule, cons, p.Pos(fn.Pos()), "no success path is compatible with this condition", "a success return is reachable while "+rw.what)
 		}
 	}
+}
+
+// atomLookupsCertificate: the isnil atom is about a FindElement call whose constant path ends in X509Certificate.
+func atomLookupsCertificate(ai *AtomInfo) bool {
+	for _, v := range ai.Vals {
+		if c, ok := v.(*ssa.Call); ok {
+			for _, a := range c.Call.Args {
+				if k, ok := a.(*ssa.Const); ok && k.Value != nil && k.Value.Kind() == constant.String && strings.HasSuffix(constant.StringVal(k.Value), "X509Certificate") {
+					return true
+				}
+			}
+		}
+	}
+	return false
 }
 
 func checkGCMAuth(r *Report, a *Analysis, sc *Scope, rule string) {
@@ -1091,3 +1133,17 @@ func checkPadding(r *Report, a *Analysis, sc *Scope, rule string, strict bool) {
 }
 
 var _ = sort.Strings
+
+// safely runs one check; an unresolved role becomes an undecided obligation of that check only.
+func safely(r *Report, f func()) {
+	defer func() {
+		if x := recover(); x != nil {
+			if u, ok := x.(unresolved); ok {
+				r.Undecided(r.Prop+".anchor", "unresolved anchor "+u.what, "-", "the role/anchor did not resolve to any program object; the rule cannot vouch for the tree")
+				return
+			}
+			panic(x)
+		}
+	}()
+	f()
+}
